@@ -124,6 +124,18 @@ PruneNode(sk, d) ==
          [] OTHER -> {d}
 Prune(sk, dk) == UNION {PruneNode(sk, d) : d \in dk}
 
+\* every absent non-presence container (outside cases) made present and empty, at every level
+RECURSIVE Materialise(_, _)
+Materialise(sk, dk) ==
+  {IF ~HasVisible(sk, d.name) THEN d
+   ELSE LET c == VisibleNamed(sk, d.name) IN
+        CASE c.kind = "container" -> D(d.name, d.vals, Materialise(c.kids, d.kids))
+          [] c.kind = "list" -> D(d.name, d.vals, {D(e.name, e.vals, Materialise(c.kids, e.kids)) : e \in d.kids})
+          [] OTHER -> d
+   : d \in dk}
+  \cup {D(sk[i].name, << >>, Materialise(sk[i].kids, {})) :
+         i \in {j \in 1..Len(sk) : sk[j].kind = "container" /\ ~sk[j].presence /\ ~Has(dk, sk[j].name)}}
+
 \* ---- laws checked by TLC (DataValidateMC) ----
 \* a data tree has one node per name below a parent
 RECURSIVE WellFormed(_)
@@ -198,6 +210,24 @@ SparseChoice(kind, d) ==
                                                    IF d = 1 THEN MandNode(kind) ELSE SparseChoice(kind, d - 1) >>),
                            Case("b" \o Num(d), << Leaf("u" \o Num(d), "string") >>) >>)
 SparseShape(kind, d) == << SparseChoice(kind, d), PCont("p", << SparseChoice(kind, d) >>) >>
+\* Nested default cases: choices nested in cases, `depth` levels (level `depth` outermost), level d
+\* with a default case (case a<d>) iff bit d of mask is set; every case holds a leaf with a default,
+\* case a<d> also a non-presence container with a default and the next choice; hosted by a
+\* non-presence container (1: absent, present-but-empty or present with nodes), a presence
+\* container (2) or a list entry (3).
+P2(d) == CASE d = 1 -> 1 [] d = 2 -> 2 [] OTHER -> 4
+Bit(mask, d) == LET q == mask \div P2(d) IN q - 2 * (q \div 2) = 1
+RECURSIVE NestChoice(_, _)
+NestChoice(mask, d) ==
+  LET cases == << Case("a" \o Num(d), << LeafD("x" \o Num(d), "string", "dx" \o Num(d)),
+                                         Cont("n" \o Num(d), << LeafD("y" \o Num(d), "string", "dy" \o Num(d)) >>) >>
+                                      \o (IF d = 1 THEN << >> ELSE <<NestChoice(mask, d - 1)>>)),
+                  Case("b" \o Num(d), << LeafD("z" \o Num(d), "string", "dz" \o Num(d)), Leaf("w" \o Num(d), "string") >>) >>
+  IN IF Bit(mask, d) THEN ChoiceD("c" \o Num(d), "a" \o Num(d), cases) ELSE Choice("c" \o Num(d), cases)
+NestShape(host, depth, mask) ==
+  CASE host = 1 -> << Cont("np", << NestChoice(mask, depth) >>) >>
+    [] host = 2 -> << PCont("pc", << NestChoice(mask, depth) >>) >>
+    [] OTHER    -> << List("l", "k", << Leaf("k", "string"), NestChoice(mask, depth) >>) >>
 U1(a) == << << <<a>> >> >>
 DataShape(id) ==
   CASE id = 1 ->   \* mandatory / default under a presence container, nested non-presence containers
@@ -282,5 +312,10 @@ DataShape(id) ==
                                                     ChoiceD("l2", "l2", << LeafD("l2", "string", "w"), Leaf("l3", "string") >>) >>),
                                        Case("m", << Leaf("mx", "string"), LeafD("md", "string", "x") >>) >>) >>) >>
     [] id \in 19..30 -> SparseShape((id - 19) \div 3 + 1, (id - 19) - 3 * ((id - 19) \div 3) + 1)
-NDataShapes == 30
+    [] id \in 31..38 -> NestShape(1, 3, id - 31)
+    [] id \in 39..46 -> NestShape(2, 3, id - 39)
+    [] id \in 47..50 -> NestShape(1, 2, id - 47)
+    [] id \in 51..54 -> NestShape(2, 2, id - 51)
+    [] id \in 55..58 -> NestShape(3, 2, id - 55)
+NDataShapes == 58
 =============================================================================
